@@ -267,6 +267,48 @@ func VH_C03_resolve_doublefar_struct() {
 	}
 }
 
+// double-far to a LIST: the landing pad's tag word is a list pointer word (any element code but
+// composite here) with offset 0; the list is the object the pad's far pointer designates
+func VH_C03_resolve_doublefar_list() {
+	msg, segs := vMsgN(2, 1<<16)
+	vBigBudget(msg)
+	a, b := segs[0], segs[1]
+	paddr := int64(vNondetU32())
+	vAssume(paddr%8 == 0 && paddr+8 <= segLen(a))
+	w := refLoad64(a.data, paddr)
+	vAssume(refKind(w) == 2 && refFarIsDouble(w) && refFarSegment(w) == 1)
+	pad := 8 * int64(refFarOffsetWords(w))
+	vAssume(pad+16 <= segLen(b))
+	f := refLoad64(b.data, pad)
+	tag := refLoad64(b.data, pad+8)
+	vAssume(refKind(f) == 2 && !refFarIsDouble(f) && refFarSegment(f) == 0)
+	vAssume(refKind(tag) == 1 && refOffsetWords(tag) == 0)
+	code := refElemCode(tag)
+	vAssume(code == 2 || code == 5 || code == 6) // bytes, words, pointers
+	cnt := int64(refElemCount(tag))
+	vAssume(cnt <= 64)
+	d := uint(vNondetU64())
+	vAssume(d > 0)
+	p, err := a.readPtr(address(paddr), d)
+	vReach("returned")
+	tgt := 8 * int64(refFarOffsetWords(f))
+	esz := int64(8)
+	if code == 2 {
+		esz = 1
+	}
+	if tgt+esz*cnt <= segLen(a) {
+		vReach("valid")
+		vAssert(err == nil, "C03.resolve.doublefar.list.accepts-valid")
+		if err == nil {
+			l := p.List()
+			vAssert(p.flags.ptrType() == listPtrType && p.seg == a, "C03.resolve.doublefar.list.kind-and-segment")
+			vAssert(int64(l.off) == tgt && int64(l.length) == cnt, "C03.resolve.doublefar.list.address-and-count")
+		}
+	} else {
+		vAssert(err != nil, "C03.resolve.doublefar.list.rejects-out-of-bounds")
+	}
+}
+
 // H-field: struct data accessors = little-endian bytes at the field, 0 beyond the data section
 func VH_C03_field_data() {
 	seg := vSeg()
